@@ -15,13 +15,20 @@ import json, subprocess, sys, concurrent.futures as cf
 pid = sys.argv[1]
 idx = json.load(open('/verif/variants/index.json'))
 def run(v):
-    r = subprocess.run(["/verif/tools/variant.sh", f"/verif/variants/{v['name']}.patch", pid], capture_output=True, text=True)
+    pf = f"/verif/variants/{v['name']}.patch"
+    if v["name"].startswith("../refactors/"):
+        pf = "/verif/refactors/" + v["name"].split("/")[2] + "/patch.diff"
+    r = subprocess.run(["/verif/tools/variant.sh", pf, pid], capture_output=True, text=True)
     out = r.stdout
     if "APPLY-FAIL" in out or "BUILD-FAIL" in out:
         return v["name"], "skipped"
     fired = "VIOLATION" in out
     return v["name"], ("fired" if fired else "silent")
 vs = [v for v in idx if v["kind"] == "keep" or v["props"] == pid]
+# behaviour-preserving refactorings written by independent sub-agents (kept under /verif/refactors)
+import glob as _g, os as _os
+for rp in sorted(_g.glob("/verif/refactors/*/patch.diff")):
+    vs.append({"name": "../refactors/" + _os.path.basename(_os.path.dirname(rp)) + "/patch", "kind": "keep", "props": "all", "expect": ""})
 res = {"break_fired": 0, "break_total": 0, "keep_silent": 0, "keep_total": 0, "skipped": 0, "problems": []}
 with cf.ThreadPoolExecutor(max_workers=8) as ex:
     for (name, st), v in zip(ex.map(run, vs), vs):
